@@ -248,6 +248,59 @@ def features(o):
     return sorted(f)
 
 
+def dt_internals(o):
+    """every CIMDateTime inside o, in traversal order, by its INTERNAL state (instant, UTC offset read from the tzinfo,
+    interval length, precision) - independent of CIMDateTime.__str__ / minutes_from_utc, which the canonical JSON
+    form goes through on both sides of the comparison"""
+    import pywbem
+    out = []
+
+    def one(x):
+        if x.is_interval:
+            td = x.timedelta
+            out.append(('i', td.days, td.seconds, td.microseconds, x.precision))
+        else:
+            d = x.datetime
+            off = d.utcoffset()
+            u = (d - off).replace(tzinfo=None) if off is not None else d
+            out.append(('t', u.isoformat(), None if off is None else (off.days, off.seconds), x.precision))
+
+    def walk(x, emb=False):
+        if isinstance(x, pywbem.CIMDateTime):
+            one(x)
+        elif isinstance(x, (list, tuple)):
+            for y in x:
+                walk(y, emb)
+        elif isinstance(x, pywbem.CIMInstanceName):
+            for v in x.keybindings.values():
+                walk(v)
+        elif isinstance(x, pywbem.CIMInstance):
+            if x.path is not None and not emb:      # the path of an embedded instance is not sent
+                walk(x.path)
+            for c in list(x.properties.values()) + list(x.qualifiers.values()):
+                walk(c)
+        elif isinstance(x, pywbem.CIMClass):
+            for c in list(x.properties.values()) + list(x.methods.values()) + list(x.qualifiers.values()):
+                walk(c)
+        elif isinstance(x, pywbem.CIMProperty):
+            walk(x.value, True)
+            for q in x.qualifiers.values():
+                walk(q)
+        elif isinstance(x, pywbem.CIMMethod):
+            for c in list(x.parameters.values()) + list(x.qualifiers.values()):
+                walk(c)
+        elif isinstance(x, pywbem.CIMParameter):
+            for q in x.qualifiers.values():
+                walk(q)
+        elif isinstance(x, (pywbem.CIMQualifier, pywbem.CIMQualifierDeclaration)):
+            walk(x.value)
+    try:
+        walk(o)
+    except Exception as e:  # noqa
+        out.append(('exc', type(e).__name__))
+    return out
+
+
 def oracle(run, o, case):
     """the property on the real code: parse(encode(o)) == withDefaults(o); second trip is the identity"""
     try:
@@ -282,6 +335,12 @@ def oracle(run, o, case):
         where = where.split('.')[-1] if where else where
         run.violate({'kind': 'first_trip_differs', 'where': where, 'features': feats},
                     case, {'xml': xml0, 'path': d[0], 'sent': d[1], 'received': d[2]})
+        return
+    di, dg = dt_internals(o), dt_internals(r1)
+    if di != dg and 'string_with_CR' not in feats:
+        k = next((i for i, (a, b) in enumerate(zip(di, dg)) if a != b), min(len(di), len(dg)))
+        run.violate({'kind': 'first_trip_differs', 'where': 'datetime_internal_state', 'features': feats},
+                    case, {'xml': xml0, 'sent': repr(di[k:k + 1]), 'received': repr(dg[k:k + 1])})
         return
     try:
         xml1 = r1.tocimxml().toxml()
